@@ -2,7 +2,7 @@
 From Coq Require Import Extraction ExtrOcamlBasic.
 From GV Require Import Base.Util Base.NMap Circuit.Ssa Circuit.Reg Circuit.RegAlloc Circuit.Bristol
   Builder.Builder Builder.Build Gadgets.Gadgets
-  Lang.Types Lang.Literal Exhaust.Pat Exhaust.Covers Lang.Ast Lang.Sem.
+  Lang.Types Lang.Literal Exhaust.Pat Exhaust.Covers Lang.Ast Lang.Sem Lang.Wt.
 Extraction Language OCaml.
 Set Extraction AccessOpaque.
 Separate Extraction
@@ -21,5 +21,5 @@ Separate Extraction
   Literal.is_of_type Literal.as_bits Literal.from_bits Literal.denote Literal.has_type
   Pat.has_type Pat.pat_matches Pat.pat_wt Pat.select_arm
   Covers.covers Covers.uncovered Covers.witness_ok Covers.region_reps
-  Sem.run_main
+  Sem.run_main Sem.sizeof Ast.find_fn Wt.wt_program
   Bristol.export Bristol.import Bristol.USIZE_MAX.
